@@ -621,6 +621,13 @@ macro_rules! poly_family {
                     }
                     $o.emit(json!({"k": "poly", "op": "midpoint", "f": $fm, "ty": ty, "a": wv(&$a), "b": wv(&$b), "got": wv(&va.midpoint(vb).to_array())}));
                     $o.emit(json!({"k": "poly", "op": "distance_squared", "f": $fm, "ty": ty, "a": wv(&$a), "b": wv(&$b), "got": w(va.distance_squared(vb))}));
+                    // nearby points far from the origin (|a| = 2^12 |a - b|): the squared distance is still accurate to a few epsilon of ITSELF
+                    {
+                        let far: Vec<$S> = $a.iter().map(|x| *x * 4096.0 + 3000.0).collect();
+                        let near: Vec<$S> = far.iter().zip($b.iter()).map(|(f, d)| *f + *d).collect();
+                        let (vf, vn) = (<$V as FromSl<_>>::fs(&far), <$V as FromSl<_>>::fs(&near));
+                        $o.emit(json!({"k": "poly", "op": "distance_squared", "f": $fm, "ty": ty, "sp": "nearby points far from the origin", "a": wv(&far), "b": wv(&near), "got": w(vf.distance_squared(vn))}));
+                    }
                     let nb = vb.normalize();
                     if nb.is_finite() {
                         let nl = nb.to_array();
